@@ -70,7 +70,8 @@ var soupTags = []string{"div", "p", "b", "i", "span", "table", "tr", "td", "ul",
 var soupAttrs = []string{`id="x"`, `class='a b'`, `xmlns="http://www.w3.org/1999/xhtml"`, `xmlns:xlink="http://www.w3.org/1999/xlink"`, `xlink:href="#a"`, `xml:lang="en"`,
 	`data-x`, `x:y="1"`, `XMLNS:foo="u"`, `href="?a=1&amp;b=2"`, `disabled`, `xmlns:svg="http://www.w3.org/2000/svg"`,
 	`v-on:click:once="f"`, `a:b:c`, `:x="1"`, `xlink:title:x="t"`}
-var soupText = []string{"text", " ", "a &amp; b", "&lt;x&gt;", "é中", "1 < 2", "\n  ", "]]>", "&nbsp;", "x"}
+var soupText = []string{"text", " ", "a &amp; b", "&lt;x&gt;", "é中", "1 < 2", "\n  ", "]]>", "&nbsp;", "x",
+	"&amp;lt;b&amp;gt;", "&amp;amp;", "&amp;nbsp;x", "el.innerHTML=\"&nbsp;&lt;\""} // decoded once they still spell a reference
 
 func soup(rng *rand.Rand) string {
 	var b strings.Builder
